@@ -164,7 +164,7 @@ func init() {
 		"context.TODO":               ctxBackground,
 		"context.WithCancel":         ctxWithCancel,
 		"context.WithTimeout":        ctxWithTimeout,
-		"context.WithDeadline":       ctxWithTimeout,
+		"context.WithDeadline":       ctxWithDeadline,
 		"context.WithValue":          ctxWithValue,
 		"context.AfterFunc":          ctxAfterFunc,
 		"time.Now":                   timeNow,
@@ -763,8 +763,27 @@ func ctxWithCancel(e *Exec, g *Goroutine, fn *ssa.Function, a []Value) (Value, b
 
 func ctxWithTimeout(e *Exec, g *Goroutine, fn *ssa.Function, a []Value) (Value, bool) {
 	c, cancel := e.newCtx(e.parentCtx(a[0]), true)
-	c.dl = e.now + 1
+	e.ndl++
+	c.dl = (e.now+1)<<20 + e.ndl // a token that identifies this deadline (ctx.Deadline() hands it out)
 	return TupleV{IfaceV{t: e.ctxT(), v: c}, cancel}, false
+}
+
+// ctxWithDeadline: as WithTimeout, except that a deadline taken from another context
+// (ctx.Deadline()) keeps its identity: if that deadline has already passed - its context expired -
+// the new context is born expired, as in Go.
+func ctxWithDeadline(e *Exec, g *Goroutine, fn *ssa.Function, a []Value) (Value, bool) {
+	v, _ := ctxWithTimeout(e, g, fn, a)
+	c := v.(TupleV)[0].(IfaceV).v.(*ctxObj)
+	if tv, ok := a[1].(*StructV); ok && len(tv.f) > 1 {
+		if t, ok := tv.f[1].(*Term); ok && t.IsConst() && t.val != 0 {
+			c.dl = int64(t.val)
+			if e.passedDl[c.dl] && !c.cancelled {
+				c.deadline = true
+				e.cancelCtx(c)
+			}
+		}
+	}
+	return v, false
 }
 
 // byDeadline: the nearest cancelled ancestor (or c itself) ended by deadline expiry.
@@ -784,9 +803,28 @@ func ctxExpire(e *Exec, ctx Value) {
 	if !c.timeout {
 		panic(mkEnd("engine", "verifExpire on a context without deadline"))
 	}
+	e.dlPassed(c.dl)
 	if !c.cancelled {
 		c.deadline = true
 		e.cancelCtx(c)
+	}
+}
+
+// dlPassed records that the deadline with token dl has passed; contexts that carry the same
+// deadline (made by WithDeadline from ctx.Deadline()) expire with it.
+func (e *Exec) dlPassed(dl int64) {
+	if e.passedDl == nil {
+		e.passedDl = map[int64]bool{}
+	}
+	if e.passedDl[dl] {
+		return
+	}
+	e.passedDl[dl] = true
+	for _, o := range e.ctxs {
+		if o.timeout && o.dl == dl && !o.cancelled {
+			o.deadline = true
+			e.cancelCtx(o)
+		}
 	}
 }
 
